@@ -282,6 +282,7 @@ type rs_sim struct {
 	autopipe bool
 	noAvoid  bool
 	slow     uint64 // replica that only gets one hand-out page per delivered message
+	owed     [][3]uint64 // snapshot status reports owed to a busy sender: leader, peer, ok
 }
 
 func (s *rs_sim) inc(k string) { s.cnt[k]++ }
@@ -961,6 +962,9 @@ func (s *rs_sim) deliver(i int, keep bool, busySnap bool) {
 	}
 	r := s.reps[m.To]
 	if !s.live(r) || r.rd != nil {
+		if m.Type == pb.MsgSnap {
+			s.reportSnap(m.From, m.To, false)
+		}
 		return
 	}
 	if m.Type == pb.MsgProp && raft.VerifState(r.n).Lead == 0 {
@@ -978,9 +982,16 @@ func (s *rs_sim) deliver(i int, keep bool, busySnap bool) {
 	}
 }
 
+// reportSnap: the transport reports the outcome of a snapshot transfer to the sender
+// (ReportSnapshot).  The report is never lost: if the sender is busy with a Ready it is owed
+// and delivered as soon as the sender is idle (flushReports); a sender that crashed forgets.
 func (s *rs_sim) reportSnap(leader, peer uint64, ok bool) {
 	l := s.reps[leader]
-	if !s.live(l) || l.rd != nil {
+	if !s.live(l) {
+		return
+	}
+	if l.rd != nil {
+		s.owed = append(s.owed, [3]uint64{leader, peer, map[bool]uint64{true: 1, false: 0}[ok]})
 		return
 	}
 	st := raft.SnapshotFinish
@@ -991,6 +1002,19 @@ func (s *rs_sim) reportSnap(leader, peer uint64, ok bool) {
 	}
 	l.n.ReportSnapshot(peer, rs_grp(peer), st)
 	s.take(l, e, s.moreApplyFor(l), false)
+}
+
+func (s *rs_sim) flushReports() {
+	if len(s.owed) == 0 {
+		return
+	}
+	owed := s.owed
+	s.owed = nil
+	for _, o := range owed {
+		if l := s.reps[o[0]]; s.live(l) {
+			s.reportSnap(o[0], o[1], o[2] == 1) // re-queues itself if the sender is still busy
+		}
+	}
 }
 
 func (s *rs_sim) eligible() []int {
@@ -1082,6 +1106,7 @@ func (s *rs_sim) downCount() int {
 }
 
 func (s *rs_sim) randomStep() {
+	s.flushReports()
 	id := s.ids[s.rng.Intn(len(s.ids))]
 	// half of the steps go to whoever has something to do: a delivery or a pipeline stage
 	if s.rng.Intn(100) < 55 {
@@ -1324,6 +1349,7 @@ func (s *rs_sim) finishReady(r *rs_rep) {
 // applies, the leader ticks once, and everything in flight between unblocked replicas is delivered.
 func (s *rs_sim) calmRounds(n int) {
 	for k := 0; k < n && !s.panicked; k++ {
+		s.flushReports()
 		for _, id := range s.ids {
 			if r := s.reps[id]; s.live(r) && !s.blocked[id] {
 				s.settleOne(r)
@@ -1351,7 +1377,9 @@ func (s *rs_sim) calmRounds(n int) {
 			jm := rs_convMsg(m)
 			r.n.Step(context.TODO(), rs_wireCopy(m))
 			s.inc("deliveries")
-			s.take(r, rs_jev{Ev: "recv", M: jm}, true, false)
+			// the slow replica's application only has room when an append with entries arrives
+			ma := s.slow != r.id || (m.Type == pb.MsgApp && len(m.Entries) > 0)
+			s.take(r, rs_jev{Ev: "recv", M: jm}, ma, false)
 			s.settleOne(r)
 			if m.Type == pb.MsgSnap {
 				if l := s.reps[m.From]; s.live(l) {
@@ -1425,31 +1453,38 @@ func (s *rs_sim) scenarioStallCatchup() {
 	sizes := func(n int) []int {
 		out := make([]int, n)
 		for i := range out {
-			switch s.rng.Intn(5) {
-			case 0, 1:
+			switch s.rng.Intn(10) {
+			case 0, 1, 2:
 				out[i] = 1900 + s.rng.Intn(200)
-			case 2:
+			case 3:
 				out[i] = 150 + s.rng.Intn(100)
 			}
 		}
 		return out
 	}
-	for _, sz := range sizes(7 + s.rng.Intn(4)) {
+	fr := s.reps[f]
+	withRestart := s.rng.Intn(3) > 0
+	if !withRestart {
+		// the variant without a restart: the follower's application stalls while the first run
+		// of entries commits (a stable, committed, unapplied backlog), then the follower lags
+		s.slow = f
+		fr.stallLeft = 1 << 20
+	}
+	for _, sz := range sizes(10 + s.rng.Intn(5)) {
 		if lr := s.reps[s.leaderID()]; s.leaderID() != 0 && s.live(lr) && lr.rd == nil {
 			s.proposeSized(lr, sz)
 		}
 		s.calmRounds(2)
 	}
-	fr := s.reps[f]
 	if !s.live(fr) {
 		return
 	}
-	s.drain(fr)
-	if s.rng.Intn(3) > 0 {
+	if withRestart {
+		s.drain(fr)
 		s.crash(fr)
 	} else {
-		s.blocked = map[uint64]bool{f: true} // the variant without a restart: a follower that lags
-		fr.stallLeft = 1 << 20
+		s.finishReady(fr)
+		s.blocked = map[uint64]bool{f: true}
 	}
 	for _, sz := range sizes(5 + s.rng.Intn(4)) {
 		if lr := s.reps[s.leaderID()]; s.leaderID() != 0 && s.live(lr) && lr.rd == nil {
@@ -1618,6 +1653,7 @@ func (s *rs_sim) settle() bool {
 	}
 	maxRounds := 50 * 2 * s.elTick
 	for round := 0; round < maxRounds; round++ {
+		s.flushReports()
 		for _, id := range s.ids {
 			r := s.reps[id]
 			if !s.live(r) {
@@ -1930,7 +1966,9 @@ func raftsim(args []string) error {
 			s.scenarioGrowOne()
 		}
 		if s.cfg.Profile == "stall" {
-			s.scenarioStallCatchup()
+			for i := 0; i < 3 && !s.panicked; i++ {
+				s.scenarioStallCatchup()
+			}
 		}
 		// learners named on the command line: added by whoever leads, early in the run
 		pendingLearners := append([]uint64{}, s.cfg.Learners...)
